@@ -287,15 +287,17 @@ func (e *FieldExpression) unwrapReference(ref *dtpb.Reference) *dtpb.String {
 func (e *FieldExpression) unwrapOneof(obj proto.Message) proto.Message {
 	message := obj.ProtoReflect()
 	descriptor := message.Descriptor()
-	if name := string(descriptor.Name()); !(strings.HasSuffix(name, "ValueX") || name == "ContainedResource") {
-		return obj
-	}
 	oneofsNum := descriptor.Oneofs().Len()
 	if oneofsNum != 1 {
 		return obj
 	}
 
 	oneof := descriptor.Oneofs().Get(0)
+	// The wrapper message of a choice element (deceased[x], onset[x], value[x], ...)
+	// holds its alternatives in a oneof named "choice".
+	if name := string(descriptor.Name()); !(oneof.Name() == "choice" || name == "ContainedResource") {
+		return obj
+	}
 	field := message.WhichOneof(oneof)
 	if oneof == nil || field == nil {
 		return obj
